@@ -22,6 +22,7 @@ PROPS = {
     "C03": {
         "level": "proof",
         "manifest_level": "other",
+        "static": [static.memo_args],
         "trusted": ["conversions.convert (dimension gate, asked unit, Decimal preservation): contract assumed here, see C04"],
         "explanation": "Deductive proof of every obligation except one recorded finding (Quantity.__rtruediv__/post:dimension-inverse, pinned by the test "
                        "suite), hence level 'other' rather than 'proof'. Contracts on _add.._div (Decimal lattice), Quantity * / ** unary + - (dimension homomorphism through the C01 invariant, Decimal "
@@ -39,5 +40,69 @@ PROPS = {
         "explanation": "Registry invariants I_R (units) and I_RP (prefixes): a name/symbol is bound to an object iff the object reports it. Unit.alias, "
                        "Unit.define and the named Prefix constructor are verified against 'bound and reported afterwards, from every prior state "
                        "(including one holding an equal anonymous object)' and against the exceptional frame 'raises => registries unchanged'.",
+    },
+    "C04": {
+        "level": "proof", "manifest_level": "other",
+        "trusted": ["conversions.convert / _plan_conversion and the heuristic planner helpers (_replace_factors, _match_factors, _cancel_factors, _splat, "
+                    "_find_path_recursive): NOT under contract, bounded stand-in only", "WF_R (stored ratio = quotient of sizes) is an assumed invariant: its "
+                    "preservation by equate was attempted and is not completed by the solver"],
+        "explanation": "Partial proof plus bounded stand-in, hence 'other'. Proved: equate stores reciprocal ratios for the unprefixed operands, touches nothing else and "
+                       "forgets memoised plans; Quantity.in_unit delegates to convert (dimension gate, asked unit). Bounded: the planner, against an exact-rational "
+                       "size oracle solved from the intercepted declarations (C04 space). Two recorded findings (dimensionless units, ton of refrigeration).",
+    },
+    "C05": {
+        "level": "proof", "manifest_level": "other",
+        "trusted": ["convert's loop over the plan and the planner: bounded stand-in only"],
+        "explanation": "Bounded stand-in (linearity, zero, sign, identity, round trip, route independence over the C04 space with int/float/Decimal magnitudes) plus the "
+                       "proved parts it rests on (equate reciprocity, Quantity.unprefixed preserves the ghost value). The loop invariant of convert (result affine in the "
+                       "magnitude) is not under contract: the engine does not model sequences of unknown length.",
+    },
+    "C06": {
+        "level": "proof",
+        "trusted": ["conversions.convert: assumed contract (asked unit, Decimal preservation, value = m*size(src)/size(dst) for offset-free units, raises ConversionNotFound "
+                    "exactly when the ghost predicate noconv holds); the bounded stand-in shows where it fails (recorded findings)",
+                    "a*b, a/b, a**n: unit-independence of the physical value is bounded only (size multiplicativity is not axiomatised)"],
+        "explanation": "Quantity.__add__/__sub__ return qval(a) +- qval(b) in the left unit, __eq__/__lt__ compare physical values after unprefixing (recursion closed by the "
+                       "function's own contract), given the convert contract at the call; unit-independence follows since the posts mention only qval.",
+    },
+    "C07": {
+        "level": "proof", "manifest_level": "other",
+        "static": [static.c07_asserts],
+        "trusted": ["planner internals (KeyError/IndexError freedom of _match_factors/_cancel_factors pops): bounded stand-in only", "RecursionError: not decidable here"],
+        "explanation": "Static obligations (no assert / __debug__ in conversions.py, comparisons catch only ConversionNotFound) + contracts of Quantity.__eq__/__lt__ (no "
+                       "exception escapes; NotImplemented exactly when no conversion) + bounded stand-in run under python and python -O with outcomes compared.",
+    },
+    "C08": {
+        "level": "proof",
+        "static": [static.c08_memo, static.c08_state, static.memo_args],
+        "trusted": ["functools.lru_cache semantics (A10)", "dict insertion order of unit.factors may influence the planner (history dependence through factor order): bounded only"],
+        "explanation": "Frame/memoisation obligations decided on the AST (only equate/translate write the tables; both invalidate every memoised function after their last "
+                       "write; other memoised functions do not read the tables; no identity/time/randomness in the planner) + the contracts of equate/translate prove "
+                       "'memo-forgotten' on the real code path.",
+    },
+    "C09": {
+        "level": "other", "manifest_level": "other",
+        "trusted": ["the size oracle reads magnitudes as the decimal numerals of the source text"],
+        "explanation": "Ground, exhaustive: the precondition of equate ('agrees with the sizes implied by the other declarations') evaluated in exact arithmetic at each of "
+                       "the 212 intercepted module-level call sites; every named unit <-> coherent SI through the real planner. One recorded finding (ton of refrigeration).",
+    },
+    "C10": {
+        "level": "proof", "manifest_level": "other",
+        "trusted": ["convert / _find_path_recursive offset handling: bounded (exhaustive over scale pairs x single prefixes) only"],
+        "explanation": "translate is proved to install ratio 1 and offsets -/+ zero; the affine semantics of paths and of convert's loop are checked exhaustively over the 12 "
+                       "ordered scale pairs x registered SI prefixes against closed forms in exact rationals (not proved: sequences are outside the engine).",
+    },
+    "C12": {
+        "level": "proof",
+        "trusted": ["conversions.convert (as in C06)", "functools.total_ordering (A10): modelled as <= is (< or ==), > is (not < and !=), >= is (not <)",
+                    "Measurement / Level / approximately comparisons: bounded stand-in only (the interval comparison exceeds the solver budget)"],
+        "explanation": "Lemma functions over the contracts of Quantity.__eq__/__lt__: reflexive, symmetric, trichotomy, <=/>= mirror (each assert an obligation). "
+                       "Quantity.__hash__ is a recorded finding.",
+    },
+    "C14": {
+        "level": "proof",
+        "trusted": ["math.sqrt and ** over the reals (A4)", "+ and - of measurements: bounded stand-in only (the chain through four Quantity contracts exceeds the budget)"],
+        "explanation": "Measurement(...) takes |uncertainty|; * / and ** are proved against sigma_f^2 = sum((df/dx_i sigma_i)^2) written out per operator (non-linear real "
+                       "arithmetic), for measurement or plain quantity on the right, including zero measurands and every integer exponent.",
     },
 }
